@@ -564,24 +564,26 @@ Section AsmFaithful.
     rewrite <- (map_length (fun _ => GNil) spre). rewrite set_nth_app. reflexivity.
   Qed.
 
+  Definition member_body lv (ss : list (bytes * shape)) (v : dm) (i : nat) (m : bytes * sty) : bres gv :=
+    match nth_shape i ss with
+    | SPtr ms1 => do x <- asm q lv n32 (snd m) ms1 (zero_of ms1) false v; Ok (union_set ss i x)
+    | _ => Err PReflect
+    end.
+
   (* one member assembled into the union struct *)
-  Lemma member_asm : forall lv byname k ms ss v wrapm,
+  Lemma member_asm : forall lv byname k ms ss v wrapm (none : bres gv),
     Forall (fun m => asm_spec lv (snd m)) ms ->
     members_bindable (fun m => bindable (snd m)) ms ss = true ->
     with_member byname k (fun i m => fits_child (fits q lv n32 (snd m)) false (nth_shape i ss) v) false ms O = true ->
     exists pre m post x,
       ms = pre ++ m :: post /\ bytes_eqb k (mkey byname m) = true /\
-      with_member byname k
-        (fun i m => match nth_shape i ss with
-                    | SPtr ms1 => do x <- asm q lv n32 (snd m) ms1 (zero_of ms1) false v; Ok (union_set ss i x)
-                    | _ => Err PReflect
-                    end) (Err XUnion) ms O = Ok (union_set ss (length pre) x)
+      with_member byname k (member_body lv ss v) none ms O = Ok (union_set ss (length pre) x)
       /\ ok_members (fun m => gv_ok q n32 (snd m)) ms ss
                     (match union_set ss (length pre) x with GStruct gs => gs | _ => [] end) false = true
       /\ den_union (fun m => denote lv (snd m)) wrapm ms
                    (match union_set ss (length pre) x with GStruct gs => gs | _ => [] end) = wrapm m v.
   Proof.
-    intros lv byname k ms ss v wrapm HF Hb Hfit.
+    intros lv byname k ms ss v wrapm none HF Hb Hfit.
     destruct (with_member_true_inv byname k _ ms O Hfit) as [pre [m [post [Hms [Hpre [Hm Hbody]]]]]].
     cbn [Nat.add] in Hbody. subst ms.
     destruct (members_split pre m post ss Hb) as [spre [sn [ms1 [spost [Hss [Hl [Hbm [Hany [Hp Hq]]]]]]]]].
@@ -599,7 +601,7 @@ Section AsmFaithful.
     exists pre, m, post, x. split; [reflexivity|]. split; [exact Hm|].
     split; [|split].
     - rewrite with_member_found; [| exact Hpre | exact Hm]. cbn [Nat.add].
-      rewrite Hnth, Ha. reflexivity.
+      unfold member_body. rewrite Hnth, Ha. reflexivity.
     - rewrite Hss at 2. rewrite <- Hl, union_set_at. rewrite Hss.
       rewrite ok_members_at by assumption.
       unfold ok_loc in Hok. pose proof (bindable_noptr _ _ Hbm). destruct ms1; simpl in *; try assumption; discriminate.
@@ -650,31 +652,31 @@ Section AsmFaithful.
   Definition finish (fs : list fld) (s : shape) (st : list gv * list bool) : bres gv :=
     if missing_required fs (snd st) then Err XMissing else Ok (put s (GStruct (fst st))).
 
-  Lemma asm_struct_type_unfold : forall n fs r s cur nul m,
+  Lemma asm_struct_type_unfold : forall n (fs : list fld) r s cur nul m,
     asm q LType n32 (TStruct n fs r) s cur nul (DMap m) =
     let sc := inner s cur in
     match fst sc, snd sc with
     | SStruct _ ss, GStruct gs0 =>
-        do st <- asm_entries (fun k v gs done => by_name LType fs ss k v gs done) m gs0 (map (fun _ => false) fs);
+        do st <- asm_entries (fun k v gs done => by_name LType fs ss k v gs done) m gs0 (map (fun _ : fld => false) fs);
         finish fs s st
     | _, _ => Err PReflect
     end.
   Proof. reflexivity. Qed.
 
-  Lemma asm_struct_map_unfold : forall n fs s cur nul m,
+  Lemma asm_struct_map_unfold : forall n (fs : list fld) s cur nul m,
     asm q LRepr n32 (TStruct n fs SRMap) s cur nul (DMap m) =
     let sc := inner s cur in
     match fst sc, snd sc with
     | SStruct _ ss, GStruct gs0 =>
         do st <- asm_entries (fun k v gs done =>
                                 by_name LRepr fs ss (match find_rkey k fs with Some x => x | None => k end) v gs done)
-                             m gs0 (map (fun _ => false) fs);
+                             m gs0 (map (fun _ : fld => false) fs);
         finish fs s st
     | _, _ => Err PReflect
     end.
   Proof. reflexivity. Qed.
 
-  Lemma asm_struct_tuple_unfold : forall n fs s cur nul l,
+  Lemma asm_struct_tuple_unfold : forall n (fs : list fld) s cur nul l,
     asm q LRepr n32 (TStruct n fs SRTuple) s cur nul (DList l) =
     let sc := inner s cur in
     match fst sc, snd sc with
@@ -683,12 +685,6 @@ Section AsmFaithful.
     | _, _ => Err PReflect
     end.
   Proof. reflexivity. Qed.
-
-  Definition member_body lv (ss : list (bytes * shape)) (v : dm) (i : nat) (m : bytes * sty) : bres gv :=
-    match nth_shape i ss with
-    | SPtr ms1 => do x <- asm q lv n32 (snd m) ms1 (zero_of ms1) false v; Ok (union_set ss i x)
-    | _ => Err PReflect
-    end.
 
   Lemma union_one_entry : forall (one : bytes -> dm -> bres gv) k v (s : shape),
     (do o <- asm_union_entries one [(k, v)] None;
@@ -886,7 +882,7 @@ Section AsmFaithful.
         destruct (struct_entries LType f_name (fun k => k) fs ss Hnn (fun f _ => eq_refl)
                     fs [] [] ss [] [] m eq_refl eq_refl eq_refl eq_refl eq_refl H Hb Hf')
           as [gpost [dpost [Hrun [Hok [Hden Hmiss]]]]].
-        cbn [app] in Hrun.
+        cbn [app] in Hrun. cbn beta in Hrun.
         rewrite asm_struct_type_unfold, inner_zero, Es, Hz. cbn [fst snd]. rewrite Hrun. cbn [bind].
         unfold finish. cbn [fst snd]. rewrite Hmiss.
         eexists. split; [reflexivity|].
@@ -901,7 +897,7 @@ Section AsmFaithful.
           destruct (struct_entries LRepr f_rkey _ fs ss Hnn Hkm
                       fs [] [] ss [] [] m eq_refl eq_refl eq_refl eq_refl eq_refl H Hb Hf)
             as [gpost [dpost [Hrun [Hok [Hden Hmiss]]]]].
-          cbn [app] in Hrun.
+          cbn [app] in Hrun. cbn beta in Hrun.
           rewrite asm_struct_map_unfold, inner_zero, Es, Hz. cbn [fst snd]. rewrite Hrun. cbn [bind].
           unfold finish. cbn [fst snd]. rewrite Hmiss.
           eexists. split; [reflexivity|].
@@ -924,9 +920,9 @@ Section AsmFaithful.
         destruct m as [|[k v] [|]]; try (destruct r; discriminate).
         assert (Hf' : with_member true k (fun i m => fits_child (fits q LType n32 (snd m)) false (nth_shape i ss) v) false ms 0 = true)
           by (destruct r; exact Hf).
-        destruct (member_asm LType true k ms ss v (fun m d => DMap [(sty_name (snd m), d)]) H Hb Hf')
-          as [pre [m [post [x [Hms [Hk [Hrun [Hok Hden]]]]]]]].
-        rewrite asm_union_type_unfold, Hinner. unfold member_body. rewrite Hrun. cbn [bind].
+        destruct (member_asm LType true k ms ss v (fun m d => DMap [(sty_name (snd m), d)]) (Err XUnion) H Hb Hf')
+          as [pre [mb [post [x [Hms [Hk [Hrun [Hok Hden]]]]]]]].
+        rewrite asm_union_type_unfold, Hinner. rewrite Hrun. cbn [bind].
         eexists. split; [reflexivity|].
         apply put_built; [assumption | rewrite Es; unfold union_set in *; exact Hok |].
         unfold union_set in *. cbn [denote unptr]. 
@@ -937,12 +933,12 @@ Section AsmFaithful.
       + destruct r.
         * simpl in Hf. destruct d; try discriminate.
           destruct m as [|[k v] [|]]; try discriminate.
-          destruct (member_asm LRepr false k ms ss v (fun m d => DMap [(fst m, d)]) H Hb Hf)
-            as [pre [m [post [x [Hms [Hk [Hrun [Hok Hden]]]]]]]].
+          destruct (member_asm LRepr false k ms ss v (fun m d => DMap [(fst m, d)]) (Err XUnion) H Hb Hf)
+            as [pre [mb [post [x [Hms [Hk [Hrun [Hok Hden]]]]]]]].
           rewrite asm_union_keyed_unfold, Hinner.
-          pose proof (find_disc_some k ms 0 pre m post Hms Hk) as Hsome.
+          pose proof (find_disc_some k ms 0 pre mb post Hms Hk) as Hsome.
           destruct (find_member_by_disc k ms 0); [|congruence].
-          unfold member_body. rewrite Hrun. cbn [bind].
+          rewrite Hrun. cbn [bind].
           eexists. split; [reflexivity|].
           apply put_built; [assumption | rewrite Es; unfold union_set in *; exact Hok |].
           unfold union_set in *. cbn [denote unptr].
@@ -951,15 +947,15 @@ Section AsmFaithful.
           assert (Hf' : with_member false (kind_name d)
                           (fun i m => fits_child (fits q LRepr n32 (snd m)) false (nth_shape i ss) d) false ms 0 = true).
           { simpl in Hf. destruct d; try congruence;
-              (erewrite with_member_ext_bool; [exact Hf|]; intros i m; unfold fits_child;
+              (erewrite with_member_ext_bool; [exact Hf|]; intros i mb0; unfold fits_child;
                destruct (nth_shape i ss); reflexivity). }
-          destruct (member_asm LRepr false (kind_name d) ms ss d (fun m d => d) H Hb Hf')
-            as [pre [m [post [x [Hms [Hk [Hrun [Hok Hden]]]]]]]].
+          destruct (member_asm LRepr false (kind_name d) ms ss d (fun m d => d) (Err XWrongKind) H Hb Hf')
+            as [pre [mb [post [x [Hms [Hk [Hrun [Hok Hden]]]]]]]].
           rewrite asm_union_kinded_unfold by assumption. rewrite Hinner.
           assert (Hs : s = SStruct sn ss).
           { simpl in Hl. destruct s; simpl in Es; try discriminate; try exact Es.
             simpl in Hl. rewrite andb_false_r in Hl. discriminate. }
-          rewrite Hs. unfold member_body. rewrite Hrun.
+          rewrite Hs. rewrite Hrun.
           eexists. split; [reflexivity|].
           unfold built. rewrite <- Hs at 1. 
           split.
